@@ -236,6 +236,12 @@ def _tm_histories(sp, tmm, check_pus_crc, Service17Tm, c, stamp, src, want, wo, 
         o_ch.apid = (c["apid"] + 1) % 2048
         d_new = tmm.PusTm.unpack(w_apid, ts)
         true(devs, f"hist.eq_right_after_setter.{how}", bool(o_ch == d_new) and bool(d_new == o_ch), "changed packet != packet decoded from the octets of its new values")
+    # composed from a primary header of the other packet type: refused
+    from ..core import expect_raise as _er
+
+    tc_hdr = sp.SpacePacketHeader(packet_type=sp.PacketType.TC, apid=c["apid"], seq_count=c["seq"], data_len=len(want) - 7, sec_header_flag=True, ccsds_version=c["ver"])
+    sec = tmm.PusTmSecondaryHeader(service=c["service"], subservice=c["subservice"], timestamp=stamp, message_counter=c["msg_counter"], dest_id=c["dest_id"], spacecraft_time_ref=c["time_ref"])
+    _er(devs, "hist.composed_from_tc_header", lambda: tmm.PusTm.from_composite_fields(tc_hdr, sec, src), accept=(ValueError,))
     # printing is pure: str() / repr() of a never-packed packet change nothing about what is packed after a later field change,
     # also with recalc_crc=False (no trailer has been computed yet, so one is computed)
     for printed in (False, True):
